@@ -468,7 +468,6 @@ package risc
 //@   loop 0: invariant pc == 4 * len(instructions) && labels != nil && fresh(labels) && (cap(instructions) == 0 || fresh(instructions))
 //@   loop 0: invariant forall name string :: name in labels ==> 0 <= labels[name] && labels[name] <= pc && labels[name] % 4 == 0
 
-
 // ---- generated by /verif/contracts/gen_risc.py from the RV32IM table ----
 
 //@ mode bv
